@@ -274,7 +274,7 @@ Section MovingLib.
   Qed.
 
   (* the second half of process_tail: LIB movement *)
-  Definition lib_tail (s3 : fstate) (b : block) (evs : list event) : fstate * list event * result :=
+  Definition lib_tail (s3 : fstate) (b : block) (evs : list event) (fi : option seg) : fstate * list event * result :=
     match last_sent s3 with
     | None => (s3, evs, ROk)
     | Some ls =>
@@ -285,8 +285,9 @@ Section MovingLib.
             if ri libr =? 0 then (s3, evs, ROk) else
             match has_new_irr_segment (db s3) first libr with
             | None => (s3, evs, RFuel)
-            | Some (has_new, irr, stalled) =>
-                if negb has_new then (s3, evs, ROk) else
+            | Some (has_new, irr0, stalled) =>
+                let irr := match fi with Some f => irr0 ++ [f] | None => irr0 end in
+                if negb has_new && (match fi with None => true | Some _ => false end) then (s3, evs, ROk) else
                 let d' := purge_before_lib (move_lib (db s3) libr) (c_kept cfg) in
                 let s4 := with_db s3 d' in
                 let '(s5, ev5, ok5) := process_irr_segment cfg irr (bref b) s4 in
@@ -297,9 +298,9 @@ Section MovingLib.
         end
     end.
 
-  Lemma process_tail_first s1 b undos redos junc longest : longest <> [] ->
+  Lemma process_tail_first s1 b undos redos junc longest fi : longest <> [] ->
     exists s3 evU evR evN,
-      process_tail cfg s1 b undos redos junc longest None = lib_tail s3 b (evU ++ evR ++ evN) /\
+      process_tail cfg s1 b undos redos junc longest fi = lib_tail s3 b (evU ++ evR ++ evN) fi /\
       map eblk evU = map eb undos /\ Forall (fun e => estep e = SUndo) evU /\
       map eblk evR = map eb redos /\ Forall (fun e => estep e = SNew) evR /\
       map eblk evN = map (fun sg => eb (sent sg)) (unsent longest) /\ Forall (fun e => estep e = SNew) evN /\
@@ -322,8 +323,7 @@ Section MovingLib.
     destruct (negb (has_lib (db s3))); [reflexivity|].
     destruct (block_in_chain (db s3) (bref ls) (blib ls)) as [libr|]; [|reflexivity].
     destruct (ri libr =? 0); [reflexivity|].
-    destruct (has_new_irr_segment (db s3) first libr) as [[[hn irr] st]|]; [|reflexivity].
-    rewrite andb_true_r. reflexivity.
+    destruct (has_new_irr_segment (db s3) first libr) as [[[hn irr] st]|]; reflexivity.
   Qed.
 
   (* ---------------------------------------------------------------- storing a new block keeps the invariant *)
@@ -446,15 +446,15 @@ Section MovingLib.
   (* ---------------------------------------------------------------- the triggering step, first half:
      undo / redo / new deliveries; the LIB is not touched yet *)
 
-  Lemma trigger_first s1 Fin S b pP C R Uh junc :
+  Lemma trigger_first s1 Fin S b pP C R Uh junc fi :
     Inv s1 Fin S -> In b U ->
     chain (store (db s1)) (bid b) (ri (libref (db s1))) (pP ++ [mkEntry b false]) ->
     pP = C ++ R ->
     Forall (fun e => esent e = true) C ->
     S = rev (Fin ++ map eb (C ++ Uh)) ->
     exists s3 evU evRN,
-      process_tail cfg s1 b (rev Uh) (filter esent R) junc (map seg_of (pP ++ [mkEntry b false])) None
-        = lib_tail s3 b (evU ++ evRN) /\
+      process_tail cfg s1 b (rev Uh) (filter esent R) junc (map seg_of (pP ++ [mkEntry b false])) fi
+        = lib_tail s3 b (evU ++ evRN) fi /\
       apply_all (ri r0) S (evU ++ evRN) = Some (rev (Fin ++ map eb (pP ++ [mkEntry b false]))) /\
       Inv s3 Fin (rev (Fin ++ map eb (pP ++ [mkEntry b false]))) /\
       keys (store (db s3)) = keys (store (db s1)) /\ last_sent s3 = Some b /\
@@ -473,7 +473,7 @@ Section MovingLib.
     destruct (filter_sent_split Rs Ru HRs HRu) as [F1 F2].
     assert (Hun : filter (fun e => negb (esent e)) q = Ru ++ [en]).
     { unfold q. rewrite HP, HR, !filter_app, (filter_unsent_nil C HC), <- filter_app, F2. reflexivity. }
-    destruct (process_tail_first s1 b (rev Uh) (filter esent R) junc (map seg_of q)) as
+    destruct (process_tail_first s1 b (rev Uh) (filter esent R) junc (map seg_of q) fi) as
       (s3 & evU & evR & evN & Hrun & HmU & HsU & HmR & HsR & HmN & HsN & Hst & Hex & Hlr & Hls).
     { unfold q. destruct pP; discriminate. }
     exists s3, evU, (evR ++ evN). split; [exact Hrun|].
@@ -597,7 +597,7 @@ Section MovingLib.
 
   Lemma lib_half s3 Fin S3 b evs :
     Inv s3 Fin S3 -> last_sent s3 = Some b -> In b U -> bid b <> ri (libref (db s3)) ->
-    LibHalf s3 Fin S3 b evs (lib_tail s3 b evs).
+    LibHalf s3 Fin S3 b evs (lib_tail s3 b evs None).
   Proof.
     intros HI Hls Hb Hne.
     pose proof HI as [Hd Hfin Hflast Hh]. rewrite Hls in Hh. destruct Hh as (_ & p & Hc & HS & Hsent).
@@ -607,14 +607,14 @@ Section MovingLib.
     { apply chain_nil_inv in Hc. contradiction. }
     destruct (chain_top _ _ _ _ _ Hc) as [Hf Hk].
     assert (Eet : eb et = b) by (apply (stored_is_self U U_uniq _ _ _ HU Hb Hf)).
-    unfold lib_tail. rewrite Hls, (di_has_lib _ Hd). cbn [negb].
+    unfold lib_tail. cbv beta iota zeta. rewrite Hls, (di_has_lib _ Hd). cbn [negb].
     destruct (N.le_gt_cases (blib b) (rn (libref (db s3)))) as [Hle|Hgt].
     - destruct (bic_dead (db s3) Hwf Hlid Hnum Hup Hextra (bid b) (p' ++ [et]) et (blib b) Hc) as (r & Hr & Hdead);
         [destruct p'; discriminate | exact Hf | exact Hle |].
       rewrite Eet in Hr. fold (bref b) in Hr.
       rewrite Hr. destruct (no_new_irr (db s3) first Hwf Hlid Hup r Hdead) as [Hz|Hno].
       + rewrite Hz, N.eqb_refl. apply lib_half_stay; assumption.
-      + destruct (ri r =? 0); [apply lib_half_stay; assumption|]. rewrite Hno. cbn [negb].
+      + destruct (ri r =? 0); [apply lib_half_stay; assumption|]. rewrite Hno. cbn [negb andb].
         apply lib_half_stay; assumption.
     - (* the LIB moves *)
       assert (Hdec : decl_ok (eb et)) by (rewrite Eet; apply L_decl; exact Hb).
@@ -783,7 +783,7 @@ Section MovingLib.
     Forall (fun e => estep e = SUndo) evU -> Forall (fun e => estep e = SNew) evRN ->
     (forall e, In e evU -> In (eblk e) U /\ rn (libref (db s)) < bnum (eblk e)) ->
     S3 <> [] ->
-    StepOut s Fin S b (lib_tail s3 b (evU ++ evRN)).
+    StepOut s Fin S b (lib_tail s3 b (evU ++ evRN) None).
   Proof.
     intros HI Hb Hk Hdr Happ HI3 Hk3 Hls3 Hl3 Hne HsU HsRN HuU HS3.
     destruct (lib_half s3 Fin S3 b (evU ++ evRN) HI3 Hls3 Hb Hne)
@@ -955,7 +955,7 @@ Section MovingLib.
       destruct (N.eq_dec (bid hd) (bparent b)) as [Heq|Hneq].
       + unfold sent_chain_switch_segments in Hsw. rewrite Heq, N.eqb_refl in Hsw. injection Hsw as <- <- <-.
         rewrite Heq in HcH. pose proof (chain_det _ _ _ _ _ HcH HcP0) as ->.
-        destruct (trigger_first s1 Fin S b pP pP [] [] None HI1 Hb Hc) as
+        destruct (trigger_first s1 Fin S b pP pP [] [] None None HI1 Hb Hc) as
           (s3 & evU & evRN & Hrun & Happ & HI3 & Hk3 & Hls3 & Hlr3 & HmU & HsU & HsRN).
         * rewrite app_nil_r. reflexivity.
         * exact HsH.
@@ -966,7 +966,7 @@ Section MovingLib.
       + destruct (scss_link (db s) _ (bid hd) (bparent b) pH pP Hwf Hneq HcH HcP0) as (C & R & Uh & j & HP & HH & Hsc).
         { intros f t e0 Hu He0. exact (tail_disjoint' (db s) pP (bparent b) Hdb HcP0 f t e0 Hu He0). }
         rewrite Hsc in Hsw. injection Hsw as <- <- <-.
-        destruct (trigger_first s1 Fin S b pP C R Uh j HI1 Hb Hc HP) as
+        destruct (trigger_first s1 Fin S b pP C R Uh j None HI1 Hb Hc HP) as
           (s3 & evU & evRN & Hrun & Happ & HI3 & Hk3 & Hls3 & Hlr3 & HmU & HsU & HsRN).
         * rewrite HH in HsH. apply Forall_app in HsH. tauto.
         * rewrite HS, HH. reflexivity.
@@ -979,7 +979,7 @@ Section MovingLib.
         { intros x Hx. apply Hall. eapply chain_in; [exact HcP0 | exact Hx]. }
         clear -G. induction pP as [|h t IHt]; cbn [filter]; [reflexivity|].
         rewrite (G h (or_introl eq_refl)). apply IHt. intros x Hx. apply G. right. exact Hx. }
-      destruct (trigger_first s1 [] [] b pP [] pP [] None HI1 Hb Hc eq_refl (Forall_nil _) eq_refl) as
+      destruct (trigger_first s1 [] [] b pP [] pP [] None None HI1 Hb Hc eq_refl (Forall_nil _) eq_refl) as
         (s3 & evU & evRN & Hrun & Happ & HI3 & Hk3 & Hls3 & Hlr3 & HmU & HsU & HsRN).
       cbn [rev] in Hrun. rewrite Hfil in Hrun. fold en in Hrun. rewrite Hrun.
       eapply step_finish; eauto; try congruence; try (rewrite map_app, app_assoc, rev_app_distr; discriminate).
